@@ -30,6 +30,7 @@ struct State {
 
 /// Passed in by the subscription manager to subscriptions
 /// in order to call back out.
+#[derive(Clone)]
 pub struct SubscriptionManagerDelegate {
     /// The subscription state.
     state: Arc<RwLock<State>>,
